@@ -44,11 +44,11 @@ def run_h(exe, args, variant, timeout):
     return json.loads(last[-1])
 
 
-def explore(ck, tier, variants_cover, variants_walk, pid_tag):
+def explore(ck, tier, variants_cover, variants_walk, pid_tag, cfg=None, ops=(False, True), budget=None):
     thorough = tier == "thorough"
     wd = vlib.workdir(pid_tag)
     dump = os.path.join(wd, "history")
-    r = vlib.tlc("MCHistory", "MCHistory_thorough.cfg" if thorough else "MCHistory.cfg", workers=8, dump=dump, timeout=900)
+    r = vlib.tlc("MCHistory", cfg or ("MCHistory_thorough.cfg" if thorough else "MCHistory.cfg"), workers=8, dump=dump, timeout=900)
     if r.error:
         raise vlib.InfraError(r.error)
     ck.tlc_stats(r, "MCHistory")
@@ -63,10 +63,11 @@ def explore(ck, tier, variants_cover, variants_walk, pid_tag):
     exes = {v: vlib.compile_harness("history_replay", ["harness/history_replay.cc"], v) for v in set(variants_cover + variants_walk)}
     jobs = []
     for v in variants_cover:
-        for op in (False, True):
-            jobs.append((v, ["--graph", gpath, "--cover", "--budget", "600" if thorough else "100"] + (["--with-op"] if op else []), "cover(%s%s)" % (v, ",op" if op else "")))
+        for op in ops:
+            jobs.append((v, ["--graph", gpath, "--cover", "--budget", str(budget or (600 if thorough else 100))] + (["--with-op"] if op else []),
+                         "cover(%s%s%s)" % (v, ",op" if op else "", "," + cfg if cfg else "")))
     for v in variants_walk:
-        for op in (False, True):
+        for op in ops:
             jobs.append((v, ["--graph", gpath, "--walks", str(4000 if thorough else 400), "--walklen", "14", "--seed", str(ck.seed + (1 if op else 0)),
                              "--budget", "400" if thorough else "60"] + (["--with-op"] if op else []), "walks(%s%s)" % (v, ",op" if op else "")))
     results = []
@@ -82,6 +83,8 @@ def explore(ck, tier, variants_cover, variants_walk, pid_tag):
 def run(tier, replay):
     ck = vlib.Check(PID, "model_checking", tier)
     results = explore(ck, tier, ["plain"], ["plain"], "c07")
+    # the same nuclide and mode under different energy-sum windows (what one initialisation leaves for the next)
+    results += explore(ck, tier, ["plain"], [], "c07w", cfg="MCHistory_window.cfg", ops=(False,), budget=200 if tier == "thorough" else 40)
     exhaustive = True
     for rr in results:
         if rr.get("crash"):
@@ -91,7 +94,7 @@ def run(tier, replay):
         ck.add("steps_executed", rr["steps"])
         ck.add("shots_compared_with_canonical", rr["shoots"])
         ck.add("state_action_pairs_executed", rr["pairs_covered"])
-        if rr["phase"].startswith("cover") and not rr["complete"]:
+        if rr["phase"].startswith("cover") and not rr["complete"] and "MCHistory_window" not in rr["phase"]:
             exhaustive = False
         for v in rr["violations"]:
             ck.violation(v["key"], v["what"], {"sequence": v["seq"], "phase": rr["phase"]})
